@@ -347,10 +347,23 @@ func (r *rewriter) file() {
 		case *ast.SelectStmt:
 			warnings = append(warnings, "select at "+r.p.Fset.Position(x.Pos()).String())
 		case *ast.SelectorExpr:
+			// addresses as data: behaviour then depends on the allocator and the garbage collector
+			switch x.Sel.Name {
+			case "Pointer", "UnsafePointer", "UnsafeAddr":
+				if t := r.p.TypesInfo.TypeOf(x.X); t != nil && t.String() == "reflect.Value" {
+					warnings = append(warnings, "address used as data: reflect.Value."+x.Sel.Name+" (depends on allocator and GC) at "+r.p.Fset.Position(x.Pos()).String())
+				}
+			}
 			if id, ok := x.X.(*ast.Ident); ok {
 				if pn, ok := r.p.TypesInfo.Uses[id].(*types.PkgName); ok {
 					if pn.Imported().Path() == "sync" && x.Sel.Name == "Pool" {
 						warnings = append(warnings, "sync.Pool (contents depend on GC and scheduling) at "+r.p.Fset.Position(x.Pos()).String())
+					}
+					if pn.Imported().Path() == "unsafe" && x.Sel.Name == "Pointer" {
+						warnings = append(warnings, "address used as data: unsafe.Pointer (depends on allocator and GC) at "+r.p.Fset.Position(x.Pos()).String())
+					}
+					if pn.Imported().Path() == "runtime" && (x.Sel.Name == "SetFinalizer" || x.Sel.Name == "GC" || x.Sel.Name == "NumGoroutine" || x.Sel.Name == "Gosched") {
+						warnings = append(warnings, "runtime."+x.Sel.Name+" (depends on GC and scheduling) at "+r.p.Fset.Position(x.Pos()).String())
 					}
 					switch pn.Imported().Path() {
 					case "math/rand", "crypto/rand":
